@@ -851,6 +851,8 @@ class Interp:
         if isinstance(node.op, ast.Not):
             return z_not(self.truth(v, ctx))
         op = {ast.USub: "-", ast.UAdd: "+", ast.Invert: "~"}[type(node.op)]
+        if isinstance(v, MaskedSel) and op in ("-", "+"):
+            return MaskedSel(arrays.arr_unop(op, v.arr), v.mask)
         if arrays.is_arr(v):
             if op == "~":
                 return arrays.map_arr(v, lambda x: z_not(x), "bool")
@@ -877,6 +879,8 @@ class Interp:
             return self.obj_binop(op, a, b, ctx)
         if isinstance(a, absarr.AbsArr) or isinstance(b, absarr.AbsArr):
             return absarr.binop(ctx, op, a, b)
+        if isinstance(a, MaskedSel) or isinstance(b, MaskedSel):
+            return arrays.masked_binop(ctx, op, a, b)
         if arrays.is_arr(a) or arrays.is_arr(b):
             if isinstance(a, (list, tuple)):
                 a = arrays.vec_from_nested(a)
